@@ -19,12 +19,20 @@ type Clause struct {
 	Label string
 	Src   string
 	E     Expr
+	// Trusted: an ensures clause of a verified function that is assumed at call sites but NOT checked against the body
+	// ("trusted ensures ..."): a summary of what other packages rely on, listed in the evidence as trusted
+	Trusted bool
 }
 
 type LoopSpec struct {
 	Ordinal    int
 	Invariants []*Clause
 	Decreases  Expr
+	// loop frame ("modifies" inside a loop block): only these targets are havocked at the loop header; every back edge
+	// carries the obligation that nothing else (allocated before the iteration started) was changed by the body
+	HasModifies bool
+	Modifies    []Expr
+	ModSrc      []string
 }
 
 // CallSpec: per call-site annotations inside a function ("call F@1 invariant ...") – reserved.
@@ -73,6 +81,9 @@ type Contract struct {
 }
 
 type GhostFunc struct {
+	// Macro: the body is expanded at every use and evaluated in the state of the use site (so it may read the heap
+	// and ghost variables, and old(M(..)) is M in the pre-state); parameters keep the Go types of the arguments
+	Macro   bool
 	Name    string
 	Params  []QVar
 	Ret     *TypeExpr
@@ -106,6 +117,8 @@ type SpecDB struct {
 	ZeroInit  map[string]*zeroInit // type string -> fact about a freshly allocated object ("this")
 	zeroDecls []zeroDecl
 	Immutable map[string]bool // type strings whose referents are never modified (refs are values)
+	// Layered: ghost variables indexed (first key) by store layer; viewEq / viewEqOld / view(l) range over them
+	Layered []string
 	Errors    []string
 	Skipped   []string
 	Files     []string
@@ -136,7 +149,7 @@ func newSpecDB() *SpecDB {
 var labelRe = regexp.MustCompile(`^\[([A-Za-z0-9_.,\- ]+)\]`)
 
 var clauseKw = map[string]bool{"requires": true, "ensures": true, "modifies": true, "panics": true, "pure": true,
-	"assumed": true, "invariant": true, "decreases": true, "noinline": true, "at": true}
+	"assumed": true, "invariant": true, "decreases": true, "noinline": true, "trusted": true, "at": true}
 
 // parseSpecFile reads //@ lines of one file. pkgPath is the package whose scope resolves unqualified Go names
 // (for prelude files it is set by `//@ package "path"`).
@@ -162,7 +175,7 @@ func (db *SpecDB) parseSpecFile(file string, pkgPath string) {
 		s  string
 	}
 	var ents []ent
-	topKw := map[string]bool{"import": true, "package": true, "opaque": true, "immutable": true, "ghost": true, "axiom": true, "func": true, "loop": true, "zeroinit": true, "functype": true}
+	topKw := map[string]bool{"import": true, "package": true, "opaque": true, "immutable": true, "ghost": true, "axiom": true, "func": true, "loop": true, "zeroinit": true, "functype": true, "layered": true}
 	for i, raw := range lines {
 		l := strings.TrimSpace(raw)
 		var body string
@@ -243,6 +256,20 @@ func (db *SpecDB) parseSpecFile(file string, pkgPath string) {
 			} else {
 				db.Opaque = append(db.Opaque, opaqueDecl{T: &TypeExpr{Kind: "immutable", V: te}, PkgPath: pkgPath, Imports: copyMap(imports)})
 			}
+		case "layered":
+			// layered g1, g2, ... : these ghost variables are maps whose first key is a store layer
+			for _, n := range strings.Split(rest, ",") {
+				if n = strings.TrimSpace(n); n != "" {
+					dup := false
+					for _, x := range db.Layered {
+						dup = dup || x == n
+					}
+					if !dup {
+						db.Layered = append(db.Layered, n)
+					}
+				}
+			}
+			cur, curLoop = nil, nil
 		case "zeroinit":
 			// zeroinit T : expr-over-this
 			i := strings.Index(rest, ":")
@@ -273,13 +300,20 @@ func (db *SpecDB) parseSpecFile(file string, pkgPath string) {
 					continue
 				}
 				db.GhostVars[name] = &GhostVar{name, te, pkgPath, copyMap(imports)}
-			case "func":
+			case "func", "macro":
 				g, err := parseGhostFunc(r2)
 				if err != nil {
 					errf(en.ln, "%v", err)
 					continue
 				}
 				g.File, g.PkgPath, g.Imports = file, pkgPath, copyMap(imports)
+				if w2 == "macro" {
+					g.Macro = true
+					if g.Body == nil {
+						errf(en.ln, "ghost macro %s needs a body", g.Name)
+						continue
+					}
+				}
 				if _, dup := db.Ghosts[g.Name]; dup {
 					errf(en.ln, "duplicate ghost func %s", g.Name)
 				}
@@ -373,6 +407,22 @@ func (db *SpecDB) parseSpecFile(file string, pkgPath string) {
 					cur.Props[id] = true
 				}
 			}
+			trusted := false
+			if w == "trusted" {
+				// trusted ensures [label] expr
+				if firstWord(rest) != "ensures" {
+					errf(en.ln, "only ensures clauses can be marked trusted")
+					continue
+				}
+				trusted = true
+				w = "ensures"
+				rest = strings.TrimSpace(rest[len("ensures"):])
+				label = ""
+				if m := labelRe.FindStringSubmatch(rest); m != nil {
+					label = strings.TrimSpace(m[1])
+					rest = strings.TrimSpace(rest[len(m[0]):])
+				}
+			}
 			switch w {
 			case "at":
 				e, err := parseExpr(rest)
@@ -392,6 +442,22 @@ func (db *SpecDB) parseSpecFile(file string, pkgPath string) {
 			case "noinline":
 				cur.NoInline = true
 			case "modifies":
+				if curLoop != nil {
+					curLoop.HasModifies = true
+					if rest == "nothing" || rest == "" {
+						continue
+					}
+					es, err := parseExprList(rest)
+					if err != nil {
+						errf(en.ln, "%v", err)
+						continue
+					}
+					curLoop.Modifies = append(curLoop.Modifies, es...)
+					for _, e := range es {
+						curLoop.ModSrc = append(curLoop.ModSrc, exprString(e))
+					}
+					continue
+				}
 				cur.HasModifies = true
 				if rest == "nothing" || rest == "" {
 					continue
@@ -446,7 +512,7 @@ func (db *SpecDB) parseSpecFile(file string, pkgPath string) {
 					errf(en.ln, "%v", err)
 					continue
 				}
-				cl := &Clause{Kind: w, Label: label, Src: rest, E: e}
+				cl := &Clause{Kind: w, Label: label, Src: rest, E: e, Trusted: trusted}
 				switch w {
 				case "requires":
 					cur.Requires = append(cur.Requires, cl)
@@ -710,7 +776,16 @@ func (db *SpecDB) resolveContracts(P *Program) {
 			db.Skipped = append(db.Skipped, fmt.Sprintf("%s:%d (package %s not loaded)", c.File, c.Line, c.PkgPath))
 			continue
 		}
-		if c.funcType != "" {
+		if c.funcType == "func" {
+			// unnamed function type: functype func(a A, b B) R — the contract of calls through plain func values of that type
+			sg, err := c.resolveUnnamedFuncType(P)
+			if err != nil {
+				db.Errors = append(db.Errors, fmt.Sprintf("%s:%d: %v", c.File, c.Line, err))
+				continue
+			}
+			sig = sg
+			c.Key = "dyncall:" + typeStr(sg)
+		} else if c.funcType != "" {
 			o, err := P.resolveNamed(c.funcType, c.PkgPath, c.Imports)
 			if err != nil {
 				db.Errors = append(db.Errors, fmt.Sprintf("%s:%d: %v", c.File, c.Line, err))
@@ -753,6 +828,43 @@ func (db *SpecDB) resolveContracts(P *Program) {
 		}
 		db.Contracts[c.Key] = c
 	}
+}
+
+func (c *Contract) resolveUnnamedFuncType(P *Program) (*types.Signature, error) {
+	f, err := goparser.ParseFile(token.NewFileSet(), "sig.go", "package p\nfunc functype"+c.SigSrc[strings.Index(c.SigSrc, "("):]+" {}\n", 0)
+	if err != nil {
+		return nil, fmt.Errorf("cannot parse functype signature: %v", err)
+	}
+	fd := f.Decls[0].(*ast.FuncDecl)
+	tuple := func(fl *ast.FieldList) (*types.Tuple, error) {
+		var vs []*types.Var
+		if fl == nil {
+			return types.NewTuple(), nil
+		}
+		for _, fld := range fl.List {
+			t, err := P.resolveASTType(fld.Type, c.PkgPath, c.Imports)
+			if err != nil {
+				return nil, err
+			}
+			n := len(fld.Names)
+			if n == 0 {
+				n = 1
+			}
+			for i := 0; i < n; i++ {
+				vs = append(vs, types.NewVar(token.NoPos, nil, "", t))
+			}
+		}
+		return types.NewTuple(vs...), nil
+	}
+	ps, err := tuple(fd.Type.Params)
+	if err != nil {
+		return nil, err
+	}
+	rs, err := tuple(fd.Type.Results)
+	if err != nil {
+		return nil, err
+	}
+	return types.NewSignatureType(nil, nil, nil, ps, rs, false), nil
 }
 
 func (c *Contract) resolveFunc(P *Program) (*types.Func, error) {
